@@ -1,4 +1,5 @@
 import Firebolt.Properties.C01
+import Firebolt.Properties.ExecFlow
 /-!
 # C04 — Backpressure never loses events; discard drops are counted and never block
 The ledger invariants under every interleaving are proved on the node component model (`Properties/ExecLedger.lean`).
@@ -9,5 +10,32 @@ open Firebolt
 theorem skeleton_deliverToChild : Generated.deliverToChild = Expected.deliverToChild := by rfl
 theorem skeleton_handleFailure : Generated.handleFailure = Expected.handleFailure := by rfl
 theorem skeleton_execute : Generated.execute = Expected.execute := by rfl
+
+
+open Firebolt.Exec in
+/-- a non-discarding target never loses: a send attempt either enqueues or is not enabled (the producer waits) -/
+theorem backpressure_never_loses (s s' : St) (k : Nat) (x : Ev) (hc : (s.outs k).closed = false) (hd : (s.outs k).discard = false)
+    (h : trySend s k x = some s') : s'.enq k = s.enq k ++ [x] ∧ s'.dropped k = s.dropped k := backpressure_waits s s' k x hc hd h
+
+open Firebolt.Exec in
+/-- a send to a discarding target is always enabled: it never makes the sender (parent, callback, main loop) wait -/
+theorem discarding_target_never_blocks (s : St) (k : Nat) (x : Ev) (hd : (s.outs k).discard = true) : (trySend s k x).isSome = true :=
+  discard_never_blocks s k x hd
+
+open Firebolt.Exec in
+/-- an event is dropped only at a full buffer of a discarding target -/
+theorem drops_only_at_full_buffer (s s' : St) (k : Nat) (x : Ev) (hc : (s.outs k).closed = false) (h : trySend s k x = some s')
+    (hdrop : s'.dropped k ≠ s.dropped k) : (s.outs k).cap ≤ (s.outs k).buf.length ∧ (s.outs k).discard = true :=
+  drop_only_when_full s s' k x hc h hdrop
+
+open Firebolt.Exec in
+/-- in every reachable state: offers = intake + drops, drops only at discarding targets, every drop counted, FIFO, capacity -/
+theorem channel_ledger_any_schedule (c : Cfg) (caps : Nat → Nat) (disc : Nat → Bool) (as : List Act) (s : St)
+    (hr : run c (init c caps disc) as = some s) : ChanInv s := (reachable_all c caps disc as s hr).chan
+
+open Firebolt.Exec in
+theorem discard_accounting_any_schedule (c : Cfg) (caps : Nat → Nat) (disc : Nat → Bool) (as : List Act) (s : St)
+    (hr : run c (init c caps disc) as = some s) (k : Nat) : (s.offered k).length = (s.enq k).length + s.discarded k :=
+  terminal_discard_accounting c s (reachable_all c caps disc as s hr) k
 
 end Firebolt.C04
